@@ -4,6 +4,8 @@ import (
 	"fmt"
 	"go/token"
 	"go/types"
+	"sort"
+	"strings"
 
 	"cachelint/internal/core"
 
@@ -26,6 +28,7 @@ func C15(r *Run) *core.Report {
 	}
 	nGo := 0
 	janitors := map[*ssa.Function]bool{}
+	reachedGo := map[ssa.Instruction]bool{}
 	finalizers := map[*ssa.Function]bool{}
 	c15TwinVerdicts = [2]map[string]bool{{}, {}}
 	for i := 0; i < 2; i++ {
@@ -62,16 +65,23 @@ func C15(r *Run) *core.Report {
 			rep.Fail("C15.J3", fn(ctor)+" wrapper", r.P.Pos(ctor.Pos()), "constructor does not allocate the outer wrapper object: without it no finalizer can stop the janitor while the goroutine keeps the cache reachable")
 			continue
 		}
-		// go statements
+		// the janitor: launch condition and body, decided on the evaluated paths of the constructor
+		launch := c15Sym(r, rep, i, ctor, inner)
+		nGo += launch.nGo
+		for f := range launch.entered {
+			janitors[f] = true
+		}
+		for gi := range launch.goInstrs {
+			reachedGo[gi] = true
+		}
 		var goes []*ssa.Go
-		core.Instrs(ctor, func(in ssa.Instruction) {
-			if g, ok := in.(*ssa.Go); ok {
+		for gi := range launch.goInstrs {
+			if g, ok := gi.(*ssa.Go); ok {
 				goes = append(goes, g)
 			}
-		})
+		}
+		sort.Slice(goes, func(a, b int) bool { return goes[a].Pos() < goes[b].Pos() })
 		for _, g := range goes {
-			nGo++
-			// the goroutine body: a function literal (captures cells) or a function / method started with arguments
 			var cl *ssa.Function
 			mc, _ := g.Common().Value.(*ssa.MakeClosure)
 			if mc != nil {
@@ -80,112 +90,10 @@ func C15(r *Run) *core.Report {
 				cl = cal
 			}
 			if cl == nil {
-				rep.Undecided("C15.J1", fn(ctor)+" go", r.P.InstrPos(g), "go statement starts neither a function literal nor a function of this package")
-				continue
+				continue // reported by c15Sym
 			}
 			janitors[cl] = true
 			rep.Fn(fn(cl))
-			// toCtor maps a value inside the goroutine body to the (cell, field) it reads in the constructor
-			toCtor := func(v ssa.Value) (ssa.Value, string) {
-				v = core.StripConv(v)
-				if prm, isP := v.(*ssa.Parameter); isP && mc == nil {
-					for pi, q := range cl.Params {
-						if q == prm && pi < len(g.Common().Args) {
-							if ld, isLd := core.StripConv(g.Common().Args[pi]).(*ssa.UnOp); isLd {
-								a := core.Addr(ld.X)
-								return a.Root, a.Field
-							}
-						}
-					}
-					return nil, ""
-				}
-				if ld, isLd := v.(*ssa.UnOp); isLd {
-					a := core.Addr(ld.X)
-					if fv, isFV := a.Root.(*ssa.FreeVar); isFV && mc != nil {
-						for bi, x := range cl.FreeVars {
-							if x == fv {
-								return mc.Bindings[bi], a.Field
-							}
-						}
-					}
-				}
-				return nil, ""
-			}
-			// ticker argument inside the goroutine
-			var tickField string
-			var tickCell ssa.Value
-			var tickerVal ssa.Value
-			core.Instrs(cl, func(in ssa.Instruction) {
-				if c, ok := in.(*ssa.Call); ok && (core.CalleeID(c) == "time.NewTicker" || core.CalleeID(c) == "time.Tick" || core.CalleeID(c) == "time.NewTimer" || core.CalleeID(c) == "time.After") {
-					tickerVal = c
-					tickCell, tickField = toCtor(c.Call.Args[0])
-				}
-			})
-			if tickerVal == nil {
-				rep.Fail("C15.J1", fn(cl)+" ticker", r.P.Pos(cl.Pos()), "the janitor goroutine builds no ticker: expired entries are not removed on its own")
-			}
-			// J1 guard: go dominated by the positive edge of a test 'field > 0' on the same cell
-			guarded := false
-			for _, b := range ctor.Blocks {
-				iff, ok := b.Instrs[len(b.Instrs)-1].(*ssa.If)
-				if !ok {
-					continue
-				}
-				posOnTrue, fld, cell, ok := positiveTest(iff.Cond)
-				if !ok {
-					continue
-				}
-				succ := b.Succs[0]
-				other := b.Succs[1]
-				if !posOnTrue {
-					succ, other = other, succ
-				}
-				if succ.Dominates(g.Block()) && !blockReach(other)[g.Block()] && (tickCell == nil || (cell == tickCell && fld == tickField)) {
-					guarded = true
-					// conversely: once the interval is positive nothing else may bypass the go statement
-					bypass := false
-					seen := map[*ssa.BasicBlock]bool{}
-					var walk func(x *ssa.BasicBlock)
-					walk = func(x *ssa.BasicBlock) {
-						if seen[x] || x == g.Block() {
-							return
-						}
-						seen[x] = true
-						for _, in := range x.Instrs {
-							if _, isRet := in.(*ssa.Return); isRet {
-								bypass = true
-							}
-						}
-						for _, nx := range x.Succs {
-							walk(nx)
-						}
-					}
-					walk(succ)
-					rep.Check(!bypass, "C15.J1", fn(ctor)+" janitor started whenever configured", r.P.InstrPos(g), "every path with a positive interval starts the janitor",
-						"with a strictly positive "+tickField+" the constructor can still return without starting the janitor (an additional condition guards the go statement): expired entries would not be removed on their own although cleanup was configured")
-				}
-			}
-			rep.Check(guarded && tickerVal != nil, "C15.J1", fn(ctor)+" janitor guard", r.P.InstrPos(g), "goroutine started only when the interval its ticker uses ("+tickField+") is strictly positive",
-				"the janitor goroutine is not started under a guard implying a strictly positive "+tickField+" (the value its ticker is built from): with an interval <= 0 it would run (or panic in the ticker), or with a positive one not run")
-			// ticker case calls DeleteExpired; stop case returns
-			// a goroutine started as a function call: its parameters stand for the arguments of the go statement
-			argOf := func(v ssa.Value) ssa.Value {
-				prm, isP := core.StripConv(v).(*ssa.Parameter)
-				if !isP || mc != nil {
-					return v
-				}
-				for pi, q := range cl.Params {
-					if q == prm && pi < len(g.Common().Args) {
-						a := core.StripConv(g.Common().Args[pi])
-						if mi, isMI := a.(*ssa.MakeInterface); isMI {
-							a = core.StripConv(mi.X)
-						}
-						return a
-					}
-				}
-				return v
-			}
-			c15select(r, rep, i, ctor, cl, tickerVal, inner, argOf)
 			// J2 captures / arguments
 			var inputs []ssa.Value
 			var inNames []string
@@ -212,7 +120,17 @@ func C15(r *Run) *core.Report {
 					rep.Fail("C15.J2", fmt.Sprintf("%s receives the wrapper", fn(cl)), r.P.InstrPos(g), "the janitor goroutine is handed the wrapper object itself")
 				}
 			}
-			// the closure body must not call methods through the wrapper type either
+		}
+		// nothing that runs inside the janitor goroutine may hold a value of the wrapper type either
+		var inJanitor []*ssa.Function
+		for f := range launch.entered {
+			inJanitor = append(inJanitor, f)
+		}
+		sort.Slice(inJanitor, func(a, b int) bool { return fn(inJanitor[a]) < fn(inJanitor[b]) })
+		for _, cl := range inJanitor {
+			if r.M.CacheM[0]["DeleteExpired"] == cl || r.M.CacheM[1]["DeleteExpired"] == cl {
+				continue
+			}
 			core.Instrs(cl, func(in ssa.Instruction) {
 				if v, ok := in.(ssa.Value); ok && reachesType(v.Type(), wrap, 0) {
 					rep.Fail("C15.J2", fn(cl)+" uses the wrapper type", r.P.InstrPos(in), "a value of the wrapper type is live inside the janitor goroutine")
@@ -293,6 +211,9 @@ func C15(r *Run) *core.Report {
 				finalizers[ff] = true
 				rep.Check(!free, "C15.J3", fn(ff)+" has no free variables", r.P.Pos(ff.Pos()), "finalizer captures nothing", "the finalizer closure captures variables: if they reach the wrapper the object is never finalized")
 				closes := false
+				for f2 := range launch.finEntered {
+					finalizers[f2] = true // helpers the finalizer closes the channel through (m.stop.fire())
+				}
 				core.Instrs(ff, func(in ssa.Instruction) {
 					if c, ok := in.(ssa.CallInstruction); ok && core.IsBuiltinCall(c) == "close" {
 						if ld, ok := c.Common().Args[0].(*ssa.UnOp); ok {
@@ -303,7 +224,12 @@ func C15(r *Run) *core.Report {
 						}
 					}
 				})
-				rep.Check(closes, "C15.J3", fn(ff)+" closes stop", r.P.Pos(ff.Pos()), "finalizer closes the inner object's stop channel", "the finalizer does not close the inner object's stop channel: the janitor goroutine is never released")
+				if launch.finChecked {
+					// decided on the evaluated paths: the finalizer closes the very channel the janitor of that path waits on
+					rep.Check(launch.finOK, "C15.J3", fn(ff)+" closes stop", r.P.Pos(ff.Pos()), "finalizer closes the channel the janitor waits on", launch.finWhy)
+				} else {
+					rep.Check(closes, "C15.J3", fn(ff)+" closes stop", r.P.Pos(ff.Pos()), "finalizer closes the inner object's stop channel", "the finalizer does not close the inner object's stop channel: the janitor goroutine is never released")
+				}
 			}
 		}
 		// stop channel created in the constructor
@@ -318,12 +244,25 @@ func C15(r *Run) *core.Report {
 				}
 			}
 		})
-		rep.Check(made, "C15.J4", fn(ctor)+" creates stop", r.P.Pos(ctor.Pos()), "stop channel created by the constructor", "the stop channel is not created by the constructor (a nil channel never delivers: the janitor would never stop)")
+		if launch.nGo == 0 {
+			// (with an evaluated janitor the rule is decided on its paths: the channel it waits on was made by this call)
+			rep.Check(made, "C15.J4", fn(ctor)+" creates stop", r.P.Pos(ctor.Pos()), "stop channel created by the constructor", "the stop channel is not created by the constructor (a nil channel never delivers: the janitor would never stop)")
+		}
 		recordTwin()
 	}
 	rep.MinCount("C15.J1", "janitor go statements", nGo, 2)
 	// the interval the guard tests is the caller's: the NewDefault family hands its arguments on unconditionally
-	defaultCtorFlow(r, rep, "C15.J1")
+	for _, v := range defaultCtorFlow(r, rep, "C15.J1") {
+		// per twin (the generic constructor family is CacheOf's), for the twins' comparison
+		tw := 0
+		if v.F.TypeParams().Len() > 0 || (v.F.Origin() != nil && v.F.Origin().TypeParams().Len() > 0) {
+			tw = 1
+		}
+		k := fmt.Sprintf("C15.J1/default-constructor-arg%d", v.Arg)
+		if old, seen := c15TwinVerdicts[tw][k]; !seen || old {
+			c15TwinVerdicts[tw][k] = v.OK
+		}
+	}
 	optionFlow(r, rep, "C15.J1")
 	// J4/J5 module-wide
 	for _, f := range r.P.Funcs {
@@ -332,8 +271,7 @@ func C15(r *Run) *core.Report {
 		}
 		core.Instrs(f, func(in ssa.Instruction) {
 			if g, ok := in.(*ssa.Go); ok {
-				isCtor := f == r.M.CacheCtor[0] || f == r.M.CacheCtor[1]
-				rep.Check(isCtor, "C15.J5", fn(f)+" go statement", r.P.InstrPos(g), "goroutines are started only by the constructors (subject to J1-J4)", "a goroutine is started outside the analysed constructors: its lifetime is not tied to the cache")
+				rep.Check(reachedGo[g], "C15.J5", fn(f)+" go statement", r.P.InstrPos(g), "goroutines are started only on the constructors' evaluated paths (subject to J1-J4)", "a goroutine is started outside the analysed constructors: its lifetime is not tied to the cache")
 			}
 			c, ok := in.(ssa.CallInstruction)
 			if !ok {
@@ -349,12 +287,17 @@ func C15(r *Run) *core.Report {
 			if c.Common().IsInvoke() && c.Common().Method.Name() == "DeleteExpired" {
 				isDE = true
 			}
-			if isDE {
+			if isDE && !syntheticForwarder(f) {
 				rep.Check(janitors[f], "C15.J5", fn(f)+" calls DeleteExpired", r.P.InstrPos(in), "only the janitor goroutine calls DeleteExpired internally", "DeleteExpired is called internally outside the janitor goroutine: entries would be removed on their own even with an interval <= 0")
 			}
 		})
 	}
 	return rep
+}
+
+// syntheticForwarder: a compiler-made wrapper (bound method value, method expression thunk) that only forwards.
+func syntheticForwarder(f *ssa.Function) bool {
+	return f != nil && f.Synthetic != "" && (strings.Contains(f.Synthetic, "bound method wrapper") || strings.Contains(f.Synthetic, "thunk") || strings.Contains(f.Synthetic, "wrapper for"))
 }
 
 // c15TwinVerdicts records, per twin constructor, whether each C15 rule family held (used by C12.W4).
